@@ -644,17 +644,7 @@ theorem required_default_present (tr : Transcode) (m : MethodD) (numeric : Bool)
 
 /-! ### when is a default only added for a field the selected binding leaves unbound? -/
 
-/-- field `n` (top level, name as in the emitted class) is not bound by binding `b` -/
-def Unbound (b : HttpRule) (n : Str) : Prop :=
-  [n] ∉ varPaths (scan b.uri) ∧ b.body ≠ some n ∧ b.body ≠ some ['*']
-
-instance (b : HttpRule) (n : Str) : Decidable (Unbound b n) := by unfold Unbound; infer_instance
-
-/-- the generator's table `query_params` (computed once, from the primary rule's raw text) is right
-about binding `b` -/
-def Agree (m : MethodD) (b : HttpRule) : Prop := ∀ n ∈ rtNames m, n ∈ queryParams m ↔ Unbound b n
-
-instance (m : MethodD) (b : HttpRule) : Decidable (Agree m b) := by unfold Agree; infer_instance
+-- `Unbound` and `Agree` are defined in `Model/Rest.lean` (the driver evaluates them on every generated call)
 
 /-- source fields of the defaults a call adds -/
 def addedFields (m : MethodD) (q : List JLeaf) : List Str :=
@@ -714,6 +704,72 @@ theorem agree_primary (m : MethodD) (b : HttpRule) (p : Str)
       rw [hvars n hn]
       simp only [List.contains_eq_mem, decide_eq_false_iff_not, beq_eq_false_iff_ne, ne_eq,
         Option.some.injEq]
+
+/-- **a default is added exactly for the required fields that the binding in use leaves unbound and the
+caller left unset** — when the generator's table agrees with that binding (field names distinct) -/
+theorem added_iff_unbound_unset (m : MethodD) (b : HttpRule) (hag : Agree m b) (q : List JLeaf) (f : FieldD)
+    (hf : f ∈ m.fields) (hreq : f.required = true)
+    (huniq : ∀ g ∈ m.fields, fixSeg g.name = fixSeg f.name → g = f) :
+    fixSeg f.name ∈ addedFields m q ↔
+      (Unbound b (fixSeg f.name) ∧ camelKey (fixSeg f.name) ∉ topKeys q) := by
+  have hrt : fixSeg f.name ∈ rtNames m := List.mem_map.mpr ⟨f, hf, rfl⟩
+  constructor
+  · intro hn
+    refine ⟨no_duplication m b hag q _ hn, ?_⟩
+    unfold addedFields at hn
+    rw [List.mem_map] at hn
+    obtain ⟨g, hg, hge⟩ := hn
+    rw [List.mem_filter, List.mem_filter] at hg
+    obtain ⟨⟨hgm, _⟩, hgk⟩ := hg
+    have := huniq g hgm hge
+    subst this
+    simpa using hgk
+  · rintro ⟨hu, hk⟩
+    unfold addedFields
+    rw [List.mem_map]
+    refine ⟨f, ?_, rfl⟩
+    rw [List.mem_filter, List.mem_filter]
+    refine ⟨⟨hf, ?_⟩, by simpa using hk⟩
+    have := (hag _ hrt).mpr hu
+    simp [hreq, this]
+
+/-! ## Binding order and the reply -/
+
+/-- **the reference transcoder uses the FIRST declared binding that applies** (transcode order =
+declaration order: the `http` rule, then its additional bindings) -/
+theorem transcode_first_match (fields : List Str) (opts : List HttpRule) (msg : Msg) (t : Transcoded)
+    (h : refTranscode fields opts msg = some t) :
+    ∃ pre b post, opts = pre ++ b :: post ∧ tryBinding fields b msg = some t ∧
+      ∀ b' ∈ pre, tryBinding fields b' msg = none := by
+  unfold refTranscode at h
+  induction opts with
+  | nil => simp at h
+  | cons a r ih =>
+    rw [List.findSome?_cons] at h
+    split at h
+    · rename_i x hx
+      simp at h
+      subst h
+      exact ⟨[], a, r, rfl, hx, by simp⟩
+    · rename_i hx
+      obtain ⟨pre, b, post, he, hb, hpre⟩ := ih h
+      refine ⟨a :: pre, b, post, by simp [he], hb, ?_⟩
+      intro b' hb'
+      simp at hb'
+      rcases hb' with rfl | hb'
+      · exact hx
+      · exact hpre b' hb'
+
+/-- a reply is parsed iff its status is below 400; otherwise the call raises -/
+theorem reply_parsed_iff (status : Nat) : replyOutcome status = .parsed ↔ status < 400 := by
+  unfold replyOutcome
+  split
+  · constructor
+    · intro h; simp at h
+    · intro h; omega
+  · constructor
+    · intro _; omega
+    · intro _; rfl
 
 /-! ## `$alt` and the NotImplemented rule -/
 
@@ -875,6 +931,14 @@ example : ((httpOptions mUpdate).head?.bind (·.body)).isSome =
 /-- the point `Presuffixed` excludes: `class` and `class_` are rewritten to the same name (protoc rejects a
 message with both: equal JSON names, so this lies outside every valid input) -/
 example : fixSeg (§"class") = fixSeg (§"class_") ∧ Presuffixed (§"class_") := by decide +kernel
+
+/-- `transcode_first_match`: both bindings of `mArchive'` apply to this request, the first is used -/
+example : refTranscode [§"name", §"alt"]
+    [⟨§"get", §"/v1/{name=archives/*}", none⟩, ⟨§"get", §"/v1/archives/{alt}", none⟩]
+    [⟨[§"name"], [.plain (§"archives/1")]⟩, ⟨[§"alt"], [.plain (§"7")]⟩] =
+    some ⟨§"get", §"/v1/archives/1", none, [⟨[§"alt"], [.plain (§"7")]⟩]⟩ := by decide +kernel
+
+example : replyOutcome 399 = .parsed ∧ replyOutcome 400 = .httpError 400 := by decide
 
 /-- a method without annotation, one with only a `custom` pattern: no binding -/
 example : httpOptions ⟨⟨none, [], []⟩, [], [], false⟩ = [] := by decide +kernel
